@@ -178,6 +178,51 @@ fn std_part(ctx: &Ctx, thorough: bool) {
             fail(ctx, "C15/std/MmapRegion::new/injected-mmap-failure", format!("ok={} left={:?}", res.is_ok(), left_mapped(&log)), json!({"size": size}));
         }
     }
+    // anonymous requests through the builder with every value of the hugetlbfs hint, at sizes
+    // around the huge-page sizes: a hint never changes what is asked of the kernel, and a safe
+    // request that the kernel itself grants is not refused
+    {
+        use vm_memory::mmap::MmapRegionBuilder;
+        const M: usize = 1 << 20;
+        for &size in &[4096usize, M, 2 * M - 4096, 2 * M, 2 * M + 4096, 4 * M, 6 * M, 1024 * M] {
+            for huge in [None, Some(false), Some(true)] {
+                for &flags in &[libc::MAP_PRIVATE | libc::MAP_ANONYMOUS, libc::MAP_PRIVATE | libc::MAP_ANONYMOUS | libc::MAP_NORESERVE, libc::MAP_SHARED | libc::MAP_ANONYMOUS | libc::MAP_NORESERVE] {
+                    for late in [false, true] {
+                        ctx.case(true);
+                        let prot = libc::PROT_READ | libc::PROT_WRITE;
+                        let rp = || json!({"api": "MmapRegionBuilder(anonymous)", "size": size, "flags": flags, "hugetlbfs": huge, "hint_set_after_build": late});
+                        let (res, log) = record_maps(|| {
+                            let mut b = MmapRegionBuilder::<()>::new(size).with_mmap_prot(prot).with_mmap_flags(flags);
+                            if let (Some(h), false) = (huge, late) {
+                                b = b.with_hugetlbfs(h);
+                            }
+                            b.build().map(|mut r| {
+                                if let (Some(h), true) = (huge, late) {
+                                    r.set_hugetlbfs(h);
+                                }
+                                r
+                            })
+                        });
+                        match &res {
+                            Ok(r) => {
+                                if r.is_hugetlbfs() != huge {
+                                    fail(ctx, "C15/std/MmapRegionBuilder/attributes-do-not-echo-the-request", format!("hugetlbfs {:?} vs requested {:?}", r.is_hugetlbfs(), huge), rp());
+                                }
+                            }
+                            Err(e) => {
+                                let p = unsafe { libc::syscall(libc::SYS_mmap, 0usize, size, prot as libc::c_long, flags as libc::c_long, -1 as libc::c_long, 0 as libc::c_long) };
+                                if p as isize > 0 {
+                                    unsafe { libc::syscall(libc::SYS_munmap, p, size) };
+                                    fail(ctx, "C15/std/MmapRegionBuilder(anonymous)/valid-request-refused", format!("size {:#x} flags {:#x} hugetlbfs hint {:?}: {:?} although the kernel maps exactly this request", size, flags, huge, e), rp());
+                                }
+                            }
+                        }
+                        judge_std(ctx, "MmapRegionBuilder(anonymous)", res, &log, false, size, prot, flags, None, &rp);
+                    }
+                }
+            }
+        }
+    }
     // externally provided mappings: the pointer must be page aligned; never mapped or unmapped by the library
     let arena = crate::arena::Arena::new(2);
     let arena3 = crate::arena::Arena::new(4);
@@ -802,7 +847,7 @@ fn file_histories(ctx: &Ctx) {
 
 pub fn run(tier: Tier, replay: Option<String>) -> i32 {
     let ctx = crate::new_ctx("C15", tier, "fault_enumeration", &replay);
-    ctx.set_rule("Unix build: file lengths {0,1,4095,4096,4097,8192,12288} x offsets {0,1,4096,len-1,len,len+1,2^64-4096,2^64-1} x sizes {0,1,4096,rest-1,rest,rest+1,isize::MAX,usize::MAX} x all 32 subsets of {PRIVATE,SHARED,ANONYMOUS,NORESERVE,FIXED} (x 3 protections in the thorough tier) through MmapRegion::build / from_file / GuestRegionMmap::from_range and the builder with the hugetlbfs hint {unset, false, true}, descriptors opened read-only and write-only x 3 protections x shared/private (a request the kernel refuses stays refused; an accepted one made exactly the mapping it reports), anonymous requests, injected mmap failure, build_raw with pointers at page offset {0,1,8,2048,4095} with and without a backing file and for 58 flag words (all subsets of the basic bits plus huge-page sizes, populate, lock, stack, growsdown, nonblock, sync and unknown high bits: the pointer rule does not depend on the flags), guest bases within +-2 of the top of the address space, byte-by-byte coherence of shared file regions in both directions; a sparse file of 14 GiB with offsets around 2^31, 2^32 and 2^33 through three constructors (the kernel sees the whole offset, the region shows the file's bytes at that offset, and a request the kernel itself maps is not refused). Xen build: guest bases within two pages of 2^64 and around 2^63 for every valid mapping type (end beyond the address space refused whatever backs the region); all 256 low mmap-flag bytes plus every single high bit (alone and combined with GRANT) x {no file, device file at offset 0, at offset 4096} x sizes (incl. past the end of the file for plain file mappings) x hugetlbfs hint {unset, false, true} x injected {none, ioctl failure, mmap failure} on the emulated gntdev/privcmd; every mapping type x 7 explicit flag words x 3 protections: the region reports exactly the requested words. Both builds: every sequence of three file lengths out of {0,4096,8192,12288} with every size requested after each change through one FileOffset lineage (the predicate refers to the file as it is now), and every length query of a valid construction answered with EIO / length 0 / length 2^40 (one deviation per run): whatever the outcome, nothing may stay mapped. Oracle: the statement's acceptance predicate (must fail: MAP_FIXED - which must not even reach the kernel -, overflowing or past-EOF file range, misaligned raw pointer, end beyond the address space, unknown/contradictory Xen type bits, missing file or non-zero offset for foreign/grant; safe requests the OS refuses may fail too); on success the attributes echo the request and exactly one mapping with the requested arguments was made; on failure the interposed mapping log (and the device) show nothing left mapped. One case = one request; all non-trivial; distinct by construction.");
+    ctx.set_rule("Unix build: file lengths {0,1,4095,4096,4097,8192,12288} x offsets {0,1,4096,len-1,len,len+1,2^64-4096,2^64-1} x sizes {0,1,4096,rest-1,rest,rest+1,isize::MAX,usize::MAX} x all 32 subsets of {PRIVATE,SHARED,ANONYMOUS,NORESERVE,FIXED} (x 3 protections in the thorough tier) through MmapRegion::build / from_file / GuestRegionMmap::from_range and the builder with the hugetlbfs hint {unset, false, true}, descriptors opened read-only and write-only x 3 protections x shared/private (a request the kernel refuses stays refused; an accepted one made exactly the mapping it reports), anonymous requests (also through the builder x hugetlbfs hint {unset,false,true} set before or after build x sizes around 2 MiB multiples up to 1 GiB: the request reaching the kernel is the one made, and what the kernel grants is not refused), injected mmap failure, build_raw with pointers at page offset {0,1,8,2048,4095} with and without a backing file and for 58 flag words (all subsets of the basic bits plus huge-page sizes, populate, lock, stack, growsdown, nonblock, sync and unknown high bits: the pointer rule does not depend on the flags), guest bases within +-2 of the top of the address space, byte-by-byte coherence of shared file regions in both directions; a sparse file of 14 GiB with offsets around 2^31, 2^32 and 2^33 through three constructors (the kernel sees the whole offset, the region shows the file's bytes at that offset, and a request the kernel itself maps is not refused). Xen build: guest bases within two pages of 2^64 and around 2^63 for every valid mapping type (end beyond the address space refused whatever backs the region); all 256 low mmap-flag bytes plus every single high bit (alone and combined with GRANT) x {no file, device file at offset 0, at offset 4096} x sizes (incl. past the end of the file for plain file mappings) x hugetlbfs hint {unset, false, true} x injected {none, ioctl failure, mmap failure} on the emulated gntdev/privcmd; every mapping type x 7 explicit flag words x 3 protections: the region reports exactly the requested words. Both builds: every sequence of three file lengths out of {0,4096,8192,12288} with every size requested after each change through one FileOffset lineage (the predicate refers to the file as it is now), and every length query of a valid construction answered with EIO / length 0 / length 2^40 (one deviation per run): whatever the outcome, nothing may stay mapped. Oracle: the statement's acceptance predicate (must fail: MAP_FIXED - which must not even reach the kernel -, overflowing or past-EOF file range, misaligned raw pointer, end beyond the address space, unknown/contradictory Xen type bits, missing file or non-zero offset for foreign/grant; safe requests the OS refuses may fail too); on success the attributes echo the request and exactly one mapping with the requested arguments was made; on failure the interposed mapping log (and the device) show nothing left mapped. One case = one request; all non-trivial; distinct by construction.");
     ctx.assume("mmap/munmap/ioctl/lseek are observed and faulted through link-time interposition; gntdev/privcmd are emulated");
     if ctx.replay_of.is_some() {
         println!("replay: deterministic enumeration; re-running it");
